@@ -815,6 +815,8 @@ def run(ctx):
         fmts = [v[ctx.seed % len(v)] for v in by.values()]
     f2, jobs = stream_public(ctx, consts, fmts, alive)
     found |= f2
+    from .. import foreign                           # stream F: valid files the library's writers never produce, through every route
+    found |= foreign.run(ctx, consts, jobs)
     found |= stream_gate(ctx, consts, jobs)
     found |= stream_api(ctx, consts, jobs, per_job=2 if quick else 12)
     found |= stream_truncate(ctx, consts, alive)
